@@ -511,6 +511,35 @@ func ruleSeries(c *Ctx) {
 			}
 		}
 	}
+	// --- Expm1 for small negative arguments: e^-a - 1 must be formed as -r/(1+r) with r = e^a - 1 (the series value);
+	// taking the reciprocal of 1+r and subtracting 1 cancels every digit of r below the working precision
+	if fd := c.fn("decomposed192.epowm1"); fd != nil {
+		// the branch for |x| < 1: `if exp == 0 { if neg { ... } ... }`
+		var small *ast.IfStmt
+		ast.Inspect(fd.Body, func(n ast.Node) bool {
+			ifs, ok := n.(*ast.IfStmt)
+			if !ok || small != nil {
+				return true
+			}
+			if x, op, k, ok := p.normCmp(ifs.Cond); ok && op == token.EQL && k.Sign() == 0 && p.exprKey(x) != "" && strings.HasPrefix(p.exprKey(x), "exp@") {
+				small = ifs
+			}
+			return true
+		})
+		if small == nil {
+			c.undecided("series.expm1.cancel", fd, "the branch of epowm1 for |x| < 1 (`exp == 0`) was not found", "C16")
+		} else {
+			cancels := ""
+			ast.Inspect(small.Body, func(n ast.Node) bool {
+				if call, ok := n.(*ast.CallExpr); ok && strings.HasSuffix(p.calleeName(call), ".sub1") {
+					cancels = p.posStr(call)
+				}
+				return true
+			})
+			c.check(cancels == "", "series.expm1.cancel", small, "for |x| < 1 and negative x the result is formed without subtracting 1 from a value near 1",
+				"decomposed192.epowm1: for |x| < 1 and negative x the result is computed as 1/(1+r) - 1 (sub1 at "+cancels+"), which cancels all digits of r = e^|x| - 1 below the 57-digit working precision: Expm1(-1e-26) = -9.999999999999999999999999950001e-27 (want ...9995e-27), Expm1(-1e-30) = -1e-30 (want -9.999999999999999999999999999995e-31)", "C16")
+		}
+	}
 	// --- Sqrt: Heron iterations from a linear first guess
 	if fd := c.fn("Sqrt"); fd != nil {
 		type lin struct{ add, mul float64 }
